@@ -199,7 +199,7 @@ Lemma oae_tail0 e from m c s :
       if done && load_dump_ok s then
         let s := send_next_idx from None false true (load_dump e true s) in
         ae_commit c (Some (last_idx (log (nd s)))) s
-      else ae_commit c None s
+      else if done then ae_commit c None (load_dump e true s) else ae_commit c None s
     | _ => s
     end).
 Proof.
@@ -236,7 +236,7 @@ Lemma oae_tailB e from m c s s0 : static (cf e) -> rel KB s s0 ->
       if done && load_dump_ok s then
         let s := send_next_idx from None false true (load_dump e true s) in
         ae_commit c (Some (last_idx (log (nd s)))) s
-      else ae_commit c None s
+      else if done then ae_commit c None (load_dump e true s) else ae_commit c None s
     | _ => s0
     end).
 Proof.
